@@ -5,9 +5,11 @@
    What is followed line by line (context.go unless said otherwise):
      Execute            95-129   load previous sum when All (96-106), package loop in sorted order,
                                  non-direct packages skipped unless All (108-116), sum saved last (118-126)
-     pkgChanged        131-141
+     pkgChanged        131-142   Force / no previous sums / empty current hash (directory could not be hashed: never
+                                 cached, repair of #27) / recorded <> current
      pkgExecute        143-242   generatedFiles by prefix base+"." (174-179), per generator a fresh
-                                 instance/buffer (191-204), doGenerate (208), deferred callbacks (212-216),
+                                 instance/buffer (191-204), doGenerate (208), deferred callbacks (212-217: an INDEX
+                                 loop over c.defers, so callbacks registered by a callback run too),
                                  IsZero with the ignore flag (71-73, 218-220), write of every retained
                                  genfile in sync.Map order striking it from the removal set (223-231),
                                  removal of the rest (233-239)
@@ -23,6 +25,8 @@
      e_sum_load   sumfile.Load's parser        e_sum_bytes  sumfile.File.Bytes
      e_enabled    IsGeneratorEnabled on the merged tags (C06 plugs its model in here)
      e_order      the iteration order of the sync.Map of retained genfiles (any permutation)
+     e_rm_rank    the iteration order of the Go map generatedFiles when the stale files are removed (233-239): the
+                  remaining names are taken in ascending rank (any rank function = any order; a permutation by construction)
      e_fixed      false = the code before the repair of #26, true = after *)
 Require Import Gengo.Base.Bytes.
 
@@ -120,7 +124,7 @@ Record args := { a_all : bool; a_force : bool; a_base : bytes (* OutputFileBaseN
 
 Inductive gresult := RNil | RSkip | RIgnore | RErr | RDie.
 (* RSkip / RIgnore: an error for which errors.Is(err, ErrSkip / ErrIgnore) holds (wrapped or not);
-   RErr: any other non-nil error; RDie: the process ends inside the call (os.Exit, fatal signal, panic). *)
+   RErr: any other non-nil error; RDie: the call never returns to Execute (os.Exit, fatal signal, panic, or it loops). *)
 
 Record step_out := {
   so_body : bytes;            (* what the call rendered into the generator's buffer *)
@@ -134,7 +138,12 @@ Record generator := {
   g_state : Type;
   g_new : pkginfo -> g_state;                                (* GeneratorNewer.New(ctx) / reflect.New of the prototype *)
   g_type : g_state -> pkginfo -> tyinfo -> g_state * step_out;   (* GenerateType / GenerateAliasType *)
-  g_defer : g_state -> pkginfo -> nat -> g_state * step_out      (* a deferred callback; its own Defer calls are never run *)
+  g_defer : g_state -> pkginfo -> nat -> g_state * step_out;     (* a deferred callback; what it registers with Defer is
+                                                                    appended to the queue (so_defers) and runs too *)
+  g_fuel : nat               (* a bound on the number of deferred callbacks run for one package.  The Go loop
+                                `for i := 0; i < len(c.defers); i++` need not terminate (a callback may always register
+                                another one); a queue that outlives the bound is the run that never returns from
+                                pkgExecute: [Died] (no further effect, Execute never reports). *)
 }.
 
 Inductive event :=
@@ -155,8 +164,17 @@ Record env := {
   e_sum_bytes : list (bytes * bytes) -> bytes;
   e_enabled : bytes -> pkginfo -> tyinfo -> bool;
   e_order : pkginfo -> list (bytes * bytes) -> list (bytes * bytes);
+  e_rm_rank : pkginfo -> bytes -> nat;
   e_fixed : bool
 }.
+
+(* `for _, fullFilename := range generatedFiles` ranges over a Go map: the names in ascending rank (stable) *)
+Fixpoint insert_rank (rk : bytes -> nat) (x : bytes) (l : list bytes) : list bytes :=
+  match l with
+  | [] => [x]
+  | y :: r => if Nat.leb (rk x) (rk y) then x :: y :: r else y :: insert_rank rk x r
+  end.
+Definition rank_sort (rk : bytes -> nat) (l : list bytes) : list bytes := fold_right (insert_rank rk) [] l.
 
 (* ---------- names ---------- *)
 
@@ -198,12 +216,13 @@ Definition load_prev (a : args) (w : world) (s : fs) : option (list (bytes * byt
     end
   else None.
 
-(* pkgChanged 131-141 *)
+(* pkgChanged 131-142:  current.Sum(pkgPath) == "" || previous.Sum(pkgPath) != current.Sum(pkgPath) *)
 Definition pkg_changed (a : args) (w : world) (prev : option (list (bytes * bytes))) (p : pkginfo) : bool :=
   if a_force a then true else
   match prev with
   | None => true
-  | Some d => negb (bytes_eqb (sum_get d (pk_path p)) (sum_get (current_sum w) (pk_path p)))
+  | Some d => is_nil (sum_get (current_sum w) (pk_path p))
+              || negb (bytes_eqb (sum_get d (pk_path p)) (sum_get (current_sum w) (pk_path p)))
   end.
 
 Definition selected (a : args) (w : world) (p : pkginfo) : bool := a_all a || is_direct w p.
@@ -257,22 +276,27 @@ Fixpoint call_loop (g : generator) (p : pkginfo) (st : g_state g) (tys : list ty
       else call_loop g p st r
   end.
 
-(* 212-216: every non-nil result of a callback is an error *)
-Fixpoint defer_loop (g : generator) (p : pkginfo) (st : g_state g) (ids : list nat) : run_out (g_state g) :=
+(* 212-217: `for i := 0; i < len(c.defers); i++`; every non-nil result of a callback is an error.
+   [ids] is the part of c.defers not yet run; what a callback registers is appended to it. *)
+Fixpoint defer_loop (fuel : nat) (g : generator) (p : pkginfo) (st : g_state g) (ids : list nat) : run_out (g_state g) :=
   match ids with
   | [] => {| ro_state := st; ro_body := []; ro_ignore := false; ro_defers := []; ro_trace := []; ro_out := Done |}
   | i :: r =>
-      let '(st', o) := g_defer g st p i in
-      let ev := EvDefer (g_name g) (pk_path p) i (so_body o) (so_res o) in
-      match so_res o with
-      | RNil =>
-          let rest := defer_loop g p st' r in
-          {| ro_state := ro_state rest; ro_body := so_body o ++ ro_body rest; ro_ignore := false;
-             ro_defers := []; ro_trace := ev :: ro_trace rest; ro_out := ro_out rest |}
-      | RDie => {| ro_state := st'; ro_body := so_body o; ro_ignore := false; ro_defers := [];
-                   ro_trace := [ev]; ro_out := Died |}
-      | _ => {| ro_state := st'; ro_body := so_body o; ro_ignore := false; ro_defers := [];
-                ro_trace := [ev]; ro_out := Failed (EDefer (g_name g) (pk_path p)) |}
+      match fuel with
+      | O => {| ro_state := st; ro_body := []; ro_ignore := false; ro_defers := []; ro_trace := []; ro_out := Died |}
+      | S fuel' =>
+          let '(st', o) := g_defer g st p i in
+          let ev := EvDefer (g_name g) (pk_path p) i (so_body o) (so_res o) in
+          match so_res o with
+          | RNil =>
+              let rest := defer_loop fuel' g p st' (r ++ so_defers o) in
+              {| ro_state := ro_state rest; ro_body := so_body o ++ ro_body rest; ro_ignore := false;
+                 ro_defers := []; ro_trace := ev :: ro_trace rest; ro_out := ro_out rest |}
+          | RDie => {| ro_state := st'; ro_body := so_body o; ro_ignore := false; ro_defers := [];
+                       ro_trace := [ev]; ro_out := Died |}
+          | _ => {| ro_state := st'; ro_body := so_body o; ro_ignore := false; ro_defers := [];
+                    ro_trace := [ev]; ro_out := Failed (EDefer (g_name g) (pk_path p)) |}
+          end
       end
   end.
 
@@ -283,7 +307,7 @@ Definition gen_run (g : generator) (p : pkginfo) : gen_out :=
   let c := call_loop g p (g_new g p) (sort_by ty_name (pk_types p)) in
   match ro_out c with
   | Done =>
-      let d := defer_loop g p (ro_state c) (ro_defers c) in
+      let d := defer_loop (g_fuel g) g p (ro_state c) (ro_defers c) in
       {| go_body := ro_body c ++ ro_body d; go_ignore := ro_ignore c;
          go_trace := ro_trace c ++ ro_trace d; go_out := ro_out d |}
   | bad => {| go_body := ro_body c; go_ignore := ro_ignore c; go_trace := ro_trace c; go_out := bad |}
@@ -330,6 +354,9 @@ Fixpoint write_loop (a : args) (p : pkginfo) (gfs : list (bytes * bytes)) (rem :
 (* 174-179 *)
 Definition generated_files (a : args) (p : pkginfo) : list bytes := filter (prefixb (out_prefix a)) (pk_files p).
 
+(* 233-239: the order in which what is left of generatedFiles is removed *)
+Definition removal_order (p : pkginfo) (rem : list bytes) : list bytes := rank_sort (e_rm_rank E p) rem.
+
 (* pkgExecute for a package that is not cached *)
 Definition pkg_effects (a : args) (gens : list generator) (p : pkginfo) : list effect * trace * outcome :=
   let '(gfs, tr, out) := gen_phase gens p in
@@ -338,7 +365,7 @@ Definition pkg_effects (a : args) (gens : list generator) (p : pkginfo) : list e
       let '(effs, rem, e) := write_loop a p (e_order E p gfs) (generated_files a p) in
       match e with
       | Some x => (effs, tr, Failed x)
-      | None => (effs ++ map (fun f => ERemove (pk_dir p, f)) rem, tr, Done)
+      | None => (effs ++ map (fun f => ERemove (pk_dir p, f)) (removal_order p rem), tr, Done)
       end
   | bad => ([], tr, bad)
   end.
@@ -412,7 +439,7 @@ Definition pkg_execute_fs (a : args) (w : world) (gens : list generator) (prev :
         let '(s1, rem, e) := write_loop_fs a p (e_order E p gfs) (generated_files a p) s in
         match e with
         | Some x => (s1, tr, Failed x)
-        | None => (remove_all_fs (pk_dir p) rem s1, tr, Done)
+        | None => (remove_all_fs (pk_dir p) (removal_order p rem) s1, tr, Done)
         end
     | bad => (s, tr, bad)
     end
